@@ -23,6 +23,9 @@ pub struct RawParameters {
     // The macro invocation whose arguments were entered into the globals most
     // recently (empty if none)
     bound: String,
+    // An argument of the macro invocation in `definition` refers to a macro
+    // parameter (`$name`, without a default) which the caller did not provide
+    unresolved: Option<String>,
 }
 
 impl RawParameters {
@@ -44,6 +47,7 @@ impl RawParameters {
                 recursion_level,
                 context_keys,
                 bound: String::new(),
+                unresolved: None,
             };
             return previous.next(&previous.invocation);
         }
@@ -57,6 +61,7 @@ impl RawParameters {
             recursion_level,
             context_keys,
             bound: String::new(),
+            unresolved: None,
         }
     }
 
@@ -77,6 +82,7 @@ impl RawParameters {
         let mut context_keys = self.context_keys.clone();
         let definition = definition.trim().to_string();
         let mut bound = String::new();
+        let mut unresolved = None;
         if definition.is_resource_name() {
             // `Op::op()` calls `next()` once more for an invocation which was already
             // handled when the enclosing pipeline (or `new()`) called `next()` for it.
@@ -91,11 +97,20 @@ impl RawParameters {
                     if key == "_name" || !(value.starts_with('$') || value.starts_with('(')) {
                         continue;
                     }
-                    // An argument that cannot be resolved is left as it is
-                    if let Ok(Some(resolved)) =
-                        super::parsed_parameters::chase(&self.globals, &raw, key)
-                    {
-                        arguments.insert(key.clone(), resolved);
+                    // An argument that cannot be resolved is an error, even if the macro
+                    // has a default of its own for that parameter. It is reported when
+                    // `Op::op()` gets to instantiate the invocation
+                    match super::parsed_parameters::chase(&self.globals, &raw, key) {
+                        Ok(Some(resolved)) => {
+                            arguments.insert(key.clone(), resolved);
+                        }
+                        Ok(None) => (),
+                        Err(Error::Syntax(message)) => {
+                            unresolved.get_or_insert(message);
+                        }
+                        Err(error) => {
+                            unresolved.get_or_insert(error.to_string());
+                        }
                     }
                 }
                 for key in arguments.keys() {
@@ -117,7 +132,14 @@ impl RawParameters {
             recursion_level,
             context_keys,
             bound,
+            unresolved,
         }
+    }
+
+    /// The reason why an argument of the macro invocation in `definition`
+    /// could not be determined, if that is the case
+    pub fn unresolved_argument(&self) -> Option<&String> {
+        self.unresolved.as_ref()
     }
 
     /// The arguments given by the caller(s) of the macro we are (a step) in, i.e.
